@@ -147,6 +147,11 @@ def answer : List String → String
         | some rows => showList showOptNat (ancestors rows)
         | none => "bad-op"
       | _ => "bad-op"
+  | ["sortidx", l] => match parseJAll l with
+      | some (.list ks) => match ks.mapM jTriple? with
+        | some keys => showList toString (sortIdx keys)
+        | none => "bad-op"
+      | _ => "bad-op"
   | ["dbversion"] => toString Gen.PackConsts.dbMajor ++ "." ++ toString Gen.PackConsts.dbMinor
   | _ => "bad-op"
 
